@@ -22,6 +22,23 @@ func (e *Enc) makeClosure(fr *frame, st *State, x *ssa.MakeClosure) Value {
 	ref := e.q.define(fr.prefix+x.Name(), sortInt, st.ap)
 	st.ap = e.q.define("ap", sortInt, "(+ "+st.ap+" 1)")
 	st.assume("(> " + ref + " 0)")
+	// facts the closure's contract demands of its captured variables
+	if con := e.v.db.Funcs[funcKey(fn)]; con != nil && len(con.Captures) > 0 {
+		vars := map[string]Value{}
+		for i, fv := range fn.FreeVars {
+			if i >= len(ci.bindings) {
+				break
+			}
+			if _, isPtr := fv.Type().Underlying().(*types.Pointer); isPtr {
+				vars[fv.Name()] = e.loadPtr(st, ci.bindings[i], 0)
+			}
+			vars["&"+fv.Name()] = ci.bindings[i]
+		}
+		env := &SpecEnv{e: e, pkg: fn.Pkg.Pkg, vars: vars, cur: st, old: e.entry, where: "captures of " + funcDisplayName(fn)}
+		for _, c := range con.Captures {
+			e.obligeClauseNamed(env, st, "captures", shortCallee(funcDisplayName(fn))+":"+c.Label, c, x.Pos())
+		}
+	}
 	return Value{term: ref, typ: x.Type(), clo: ci}
 }
 
@@ -85,6 +102,10 @@ func (e *Enc) callWith(fr *frame, st *State, c *ssa.CallCommon, fnv Value, args 
 		// dynamic call of an unknown function value
 		e.oblige(st, "nopanic", "nil-func-call", "(not (= "+fnv.term+" 0))", pos)
 		e.callsiteChecks(fr, st, "<dynamic>", nil, args, pos)
+		if e.contract != nil && e.contract.DynPure {
+			e.v.useTrusted("assume:" + e.contract.Key + ": function values called here do not modify modelled state and do not panic")
+			return e.freshResult(st, prefix, rt)
+		}
 		e.unknownCall(fr, st, "dynamic function value", args)
 		return e.freshResult(st, prefix, rt)
 	}
@@ -380,6 +401,11 @@ func (e *Enc) applyClauses(fr *frame, st *State, con *Contract, pkg *types.Packa
 	} else if inferred != nil {
 		keys, all, ghosts := inferred()
 		e.havocKeys(st, keys, all, ghosts)
+	}
+	for _, cc := range con.CallCounts {
+		k := callCountKey(cc.Callee)
+		e.ghostGet(st, k)
+		st.ghost[k] = e.q.fresh("gh_"+k, e.q.ghostSort(k))
 	}
 	if !con.Pure && con.HasMod {
 		nap := e.q.fresh("ap", sortInt)
@@ -700,6 +726,7 @@ func (e *Enc) callsiteChecks(fr *frame, st *State, callee string, fn *ssa.Functi
 			continue
 		}
 		env := e.frameEnv(fr, st)
+		e.lenientLocals(fr, st, env)
 		for i, a := range args {
 			env.vars[fmt.Sprintf("arg%d", i)] = a
 		}
@@ -716,6 +743,7 @@ func (e *Enc) sendSiteChecks(fr *frame, st *State, ch, val Value, cond string, p
 	}
 	for _, cs := range con.SendSites {
 		env := e.frameEnv(fr, st)
+		e.lenientLocals(fr, st, env)
 		env.vars["ch"] = ch
 		env.vars["m"] = val
 		env.where = "sendsite at " + e.pos(pos)
@@ -892,4 +920,42 @@ func (e *Enc) loopEnv(fr *frame, head *ssa.BasicBlock, st *State, spec *LoopSpec
 	}
 	env.where = "loop invariant"
 	return env
+}
+
+// lenientLocals: in call-site / send-site clauses, a local variable of the
+// function that has no (unique) definition at this site stands for an
+// arbitrary value of its type - the clause must hold whatever it is.
+func (e *Enc) lenientLocals(fr *frame, st *State, env *SpecEnv) {
+	if fr.localTypes == nil {
+		fr.localTypes = map[string]types.Type{}
+		clash := map[string]bool{}
+		for _, b := range fr.fn.Blocks {
+			for _, ins := range b.Instrs {
+				if d, ok := ins.(*ssa.DebugRef); ok {
+					if obj, ok := d.Object().(*types.Var); ok && obj != nil {
+						if t, seen := fr.localTypes[obj.Name()]; seen && !types.Identical(t, obj.Type()) {
+							clash[obj.Name()] = true
+						}
+						fr.localTypes[obj.Name()] = obj.Type()
+					}
+				}
+			}
+		}
+		for n := range clash {
+			delete(fr.localTypes, n)
+		}
+		fr.lenient = map[string]Value{}
+	}
+	for name, t := range fr.localTypes {
+		if _, ok := env.vars[name]; ok {
+			continue
+		}
+		v, ok := fr.lenient[name]
+		if !ok {
+			v = Value{term: e.q.fresh("any_"+name, e.u.sortOf(t)), typ: t}
+			fr.lenient[name] = v
+		}
+		env.vars[name] = v
+		delete(env.ambiguous, name)
+	}
 }
